@@ -485,7 +485,7 @@ PROPS["C20"] = dict(
          "Number and of the Value, pretty, and nested in a document read through a chunked reader; documents of arrays of such "
          "literals with whitespace re-serialised; plus the whole parser input space of C01 (values compared as literal text).",
     trusted_base=MACHINE_TB,
-    assumptions=["as_f64 of an arbitrary-precision Number is str::parse::<f64> (std): 'nearest finite f64 or None' is std's guarantee and is not re-checked here",
+    assumptions=["as_f64 of an arbitrary-precision Number is str::parse::<f64> (std); the correspondence compares it with Spec.Ieee.roundNE64 of the literal's exact value",
                  "Number::from_str = number entry point + end-of-input check, modelled as 'parser returns a number and the input has no whitespace'"],
     partial=["c20_typed_same (typed deserialisation independent of the feature) is C06's c06_typed, which does not mention the feature; "
              "the accessor clause is checked by correspondence against the literal's exact value"],
